@@ -55,10 +55,15 @@ MergeKeepsLast(B) ==
   /\ Range(B.mTickets) = {Ticket(B.burns[i]) : i \in LastPerIndex(B.burns, LAMBDA b : b.eth)}
   /\ Range(B.mBurns) = {BurnEv(B.burns[i]) : i \in LastPerIndex(B.burns, LAMBDA b : b.c)}
   /\ Range(B.mMints) = {MintEv(B.mints[i]) : i \in LastPerIndex(B.mints, LAMBDA m : m.c)}
-\* the ticket handler stores one of the merged tickets (none if there is none)
+\* the ticket handler stores every ticket the merge kept
+StoresAllMerged(B) == SameBag(B.mTickets, B.rows)
+\* (former handler, before "fix: store every burn ticket of a merged event": one of the merged tickets)
 StoresOneTicket(B) == IF Len(B.mTickets) = 0 THEN Len(B.rows) = 0
                       ELSE Len(B.rows) = 1 /\ B.rows[1] \in Range(B.mTickets)
 \* burn totals count what the merge kept
 BurnTotalsOfMerged(B) == \A a \in B.auths :
    SumOver(B.dBurn, 1, LAMBDA r : IF r.a = a THEN r.d ELSE 0) = SumOver(B.mBurns, 1, LAMBDA r : IF r.a = a THEN r.d ELSE 0)
+\* mint totals count what the merge kept
+MintTotalsOfMerged(B) == \A a \in B.auths :
+   SumOver(B.dMint, 1, LAMBDA r : IF r.a = a THEN r.d ELSE 0) = SumOver(B.mMints, 1, LAMBDA m : IF a \in Range(m.signers) THEN m.amount ELSE 0)
 =============================================================================
